@@ -16,7 +16,7 @@ from . import c01
 ID = 'C16'
 LEVEL = 'fault_enumeration'
 RULE = ('cadences of 1-7 frames (equal or unequal tchans, gaps 0..1e4 s, absolute start times ~1.7e9, slices / index lists / '
-        'label subsets, t_overwrite on/off) x C01 signal workload (all 16 flag sets); fault sequences enumerated per cadence: '
+        'label subsets, t_overwrite on/off; repeated injections, half of them with the start times changed in between) x C01 signal workload (all 16 flag sets); fault sequences enumerated per cadence: '
         'each of the 4 user callbacks raising on frame k for every k, LINE failpoints at sampled (quick) / all (thorough) '
         'executed statements of Frame.add_signal in frame k, array profile that fits only the first frames; '
         'non-trivial = >=2 frames with a non-zero start offset and a non-zero reference signal, or a fault actually injected; '
@@ -38,7 +38,7 @@ def required(tier):
     b = {f'kind:{k}': 3 for k in set(KINDS)}
     b.update({f'flags:{k}': 1 for k in range(16)})
     b.update({'fault-raised': 30, 'gap>0': 30, 'frames>=3': 30, 'standalone:before': 20, 'standalone:after': 20,
-              'order:first-frame-is-latest': 10, 'subset-of-overwritten-cadence': 10, 'frames-with-customised-time-axis': 40, 'frames-built-from-one-background-array': 30})
+              'order:first-frame-is-latest': 10, 'subset-of-overwritten-cadence': 10, 'retimed-between-two-injections': 20, 'frames-with-customised-time-axis': 40, 'frames-built-from-one-background-array': 30})
     return {'buckets': b, 'counters': {'frames_compared': 300, 'ts_restore_checks': 500, 'faults_injected': 100,
                                        'line_failpoints_fired': 20}, 'checks': 2000, 'nontrivial': 100}
 
@@ -90,6 +90,11 @@ def gen_cases(seed, tier):
             if kind == 'normal_subset':
                 c['t_overwrite'] = bool(rng.integers(2))
             c['reverse'] = bool(common.stratum(j, 63, 5) == 2) and not c['t_overwrite']
+        if kind in ('normal', 'normal_subset', 'times'):
+            # start times changed between two injections into the same cadence object, membership unchanged (r10_C16_2)
+            c['retime'] = common.stratum(j, 67, ['none', 'none', 'slew', 'assign'])
+            if c['retime'] != 'none':
+                c['repeats'] = 2
         if kind == 'line':
             c['line_points'] = [int(x) for x in rng.integers(0, 70, size=3 if tier == 'quick' else 12)]
             if tier == 'thorough' and common.stratum(j, 64, 4) == 0:
@@ -393,6 +398,13 @@ def _run(stg, c, R, mon):
         if c.get('standalone') in ('pre', 'both'):
             standalone('before')
         for rep in range(c['repeats']):
+            if rep >= 1 and c.get('retime', 'none') != 'none' and len(sub) >= 2:
+                if c['retime'] == 'slew':
+                    sub.t_slew = c['t_slew'] + 777.0
+                    sub.overwrite_times()
+                else:
+                    sub.frames[-1].t_start = sub.frames[-1].t_start + 4321.0
+                R.bucket('retimed-between-two-injections')
             spec = c['spec'] if rep == 0 else dict(c['spec'], path=dict(c['spec']['path'], seed=c['spec']['path'].get('seed', 0) + 1))
             cc = dict(c, spec=spec)
             ref = rsig.SignalRef(stg, spec, (fs0[0] + fs0[-1]) / 2, span)
